@@ -31,6 +31,8 @@ class Recorder:
         self.oid_of = {}
         self.keep = []  # keeps every object ever seen alive so id()s stay unique
         self.prev = {}
+        self.mh_ret = {}
+        self.slot_pi = {}  # slots holding DataFrame histograms are projected with one gamma per axis
         self.events = []
         self.tmpdir = tmpdir
         self.cut = None
@@ -46,7 +48,8 @@ class Recorder:
         ch = []
         for s in sorted(self.objs):
             o = self.objs[s]
-            rec = {"c": to_json(self.pi(o)), "oid": self.oid(o)}
+            pi = self.slot_pi.get(s, self.pi)
+            rec = {"c": to_json(pi(o)), "oid": self.oid(o)}
             if self.prev.get(s) != rec:
                 ch.append({"s": s, "v": rec})
         dropped = [s for s in self.prev if s not in self.objs]
@@ -65,7 +68,7 @@ class Recorder:
         ev = dict(op)
         kind = op["op"]
         # an operand slot that does not exist (because an earlier call raised) makes the step meaningless
-        for key in ("a", "b") + (("s",) if kind not in ("New", "NewShared", "NewDefault") else ()):
+        for key in ("a", "b") + (("s",) if kind not in ("New", "NewShared", "NewDefault", "MH") else ()):
             if key in op and op[key] not in self.objs:
                 return None
         out, exc, extra = "ok", "", {}
@@ -86,6 +89,19 @@ class Recorder:
                 arg["wb"] = arg["w"].tobytes()
         elif kind == "Mul":
             arg["f"] = self.factor(op)
+        elif kind == "MH":
+            from . import frame as FR
+
+            allcols = sorted({c for f in op["features"] for c in f} | set(op["cols"]) | ({op["time_axis"]} if op.get("time_axis") else set()))
+            arg["df"] = FR.make_df(op["rows"], allcols)
+            arg["before"] = arg["df"].copy(deep=True)
+            arg["specs"] = None
+            if op.get("given") is not None:
+                arg["specs"] = {}
+                for name, sp in op["given"].items():
+                    cs = name.split(":")
+                    arg["specs"][name] = ([FR.concretise_spec(x, c) for x, c in zip(sp, cs)] if isinstance(sp, list)
+                                          else FR.concretise_spec(sp, cs[0]))
         elif kind in ("New", "NewShared", "NewDefault"):
             B.check_exact(op["d"], self.g)  # the constructors themselves are library code: called inside the try
         # ---- execute: only calls into the library
@@ -179,6 +195,30 @@ class Recorder:
                 elif which == "ndim":
                     if hasattr(type(h), "n_dim"):  # collections do not offer n_dim / datatype
                         h.n_dim, h.datatype
+            elif kind == "MH":
+                from . import frame as FR
+
+                kw = dict(features=[":".join(f) for f in op["features"]] if op["features"] else None,
+                          binning=op["binning"], bin_specs=arg["specs"], ret_specs=True)
+                if op.get("time_axis"):
+                    kw.update(time_axis=op["time_axis"], time_width=op.get("time_width", "30d"))
+                if op.get("reuse"):
+                    # a second frame binned with what the first call returned
+                    feats0, bspecs0, taxis0, vdt0 = self.mh_ret[op["reuse"]]
+                    kw = dict(features=feats0, bin_specs=bspecs0, var_dtype=vdt0, binning=op["binning"], ret_specs=True)
+                    if taxis0:
+                        kw["time_axis"] = taxis0
+                extra["specs"], extra["dts"], extra["nfeat"] = {}, {}, False
+                from histogrammar.dfinterface.make_histograms import make_histograms
+
+                hists, feats, bspecs, taxis, vdt = make_histograms(arg["df"], **kw)
+                name = ":".join(op["cols"])
+                extra["nfeat"] = name in hists and all(float(h.entries) == len(op["rows"]) for h in hists.values())
+                extra["specs"] = FR.abstract_specs(bspecs)
+                extra["dts"] = {c: FR.DTYPES[c] for c in op["cols"]}
+                O[op["t"]] = hists[name]
+                self.mh_ret[op["t"]] = (feats, bspecs, taxis, vdt)
+                self.slot_pi[op["t"]] = Pi(self.g, by_depth=[FR.gamma_of(c) for c in op["cols"]])
             elif kind == "View":
                 h = O[op["a"]]
                 P_ = self.pi
@@ -244,9 +284,19 @@ class Recorder:
         except Exception as e:  # the outcome is part of the observation
             out, exc = "exc", type(e).__name__
             extra["msg"] = str(e)[:120]
+        if out == "ok" and "t" in op and "a" in op:
+            if op["a"] in self.slot_pi:
+                self.slot_pi[op["t"]] = self.slot_pi[op["a"]]
+            else:
+                self.slot_pi.pop(op["t"], None)
         if kind == "FillNumpy":
             extra["inputs_unchanged"] = arg["data"].tobytes() == arg["before"] and (
                 "wb" not in arg or arg["w"].tobytes() == arg["wb"])
+        if kind == "MH":
+            extra["df_unchanged"] = bool(arg["df"].equals(arg["before"])) and list(arg["df"].dtypes) == list(arg["before"].dtypes)
+            extra.setdefault("specs", {})
+            extra.setdefault("dts", {c: "float" for c in op["cols"]})
+            extra.setdefault("nfeat", False)
         if kind in ("View", "CatView", "Grid2D") and "res" not in extra:
             extra["res"] = {}
         if kind == "Doc" and "doc" not in extra:
